@@ -12,6 +12,8 @@
              response.go / logout_response.go / attributes.go, interpreted and marshalled with the generated schema, must
              yield the same document up to the signature elements the signer adds afterwards (identifiers from NewID()
              and the clock's two instants are read off the document);
+    KBuiltX: the metadata document the endpoint served, rebuilt from the translated builders of metadata.go / identityprovider.go
+             with further oracles by source text (certificate text, endpoint URLs, entity ID, validity instant);
     KUnm   : a document (as the element tree Go's decoder resolves, an oracle) with what a library decoder made of it (the
              decoded struct as a generic value, or an error): the schema-driven model of Unmarshal (Xml/Unmarshal.v) must
              produce the same value / refuse as well; trailing content is unmarshalDocument's rule. *)
@@ -23,8 +25,9 @@ Inductive c18case :=
 | KEsc (id : Z) (s escaped : bytes)
 | KStruct (id : Z) (ty : string) (v : gval) (doc : bytes)
 | KBuilt (id : Z) (fn : string) (recv : option dval) (args : list dval) (fresh : list bytes) (issue until : bytes) (root : string) (obs : xml)
-| KUnm (id : Z) (ty : string) (trailing : bool) (doc : rnode) (obs : option gval).
-Definition c18_id (c : c18case) : Z := match c with KDoc i _ _ _ | KCodec i _ _ _ _ _ | KEnc i _ _ _ | KEsc i _ _ | KStruct i _ _ _ | KBuilt i _ _ _ _ _ _ _ _ | KUnm i _ _ _ _ => i end.
+| KUnm (id : Z) (ty : string) (trailing : bool) (doc : rnode) (obs : option gval)
+| KBuiltX (id : Z) (extra : list (string * dval)) (fn : string) (recv : option dval) (args : list dval) (fresh : list bytes) (obs : xml).
+Definition c18_id (c : c18case) : Z := match c with KDoc i _ _ _ | KCodec i _ _ _ _ _ | KEnc i _ _ _ | KEsc i _ _ | KStruct i _ _ _ | KBuilt i _ _ _ _ _ _ _ _ | KUnm i _ _ _ _ | KBuiltX i _ _ _ _ _ _ => i end.
 Definition c18_ok (c : c18case) : bool :=
   match c with
   | KDoc _ h t doc => wfb t && beq (if h then marshal_doc t else marshal t) doc
@@ -33,6 +36,7 @@ Definition c18_ok (c : c18case) : bool :=
   | KEsc _ s e => beq (xml_escape s) e
   | KStruct _ ty v doc => option_eqb beq (marshal_struct_doc xml_schema ty v) (Some doc)
   | KBuilt _ fn recv args fresh issue until root obs => built_matches fn recv args fresh issue until root obs
+  | KBuiltX _ extra fn recv args fresh obs => built_matches_with extra fn recv args fresh [] [] "md.EntityDescriptorType" obs
   | KUnm _ ty trailing doc obs => option_eqb gval_eqb (if trailing then None else unmarshal_root xml_schema ty doc) obs
   end.
 Definition c18_bad (cs : list c18case) : list Z := map c18_id (filter (fun c => negb (c18_ok c)) cs).
